@@ -441,6 +441,57 @@ def run(ctx):
             if kshort not in seen:
                 seen.add(kshort)
                 ctx.violation(bad[:400], '=== replay\n' + '\n'.join(lines) + '\n--- ' + bad + '\n--- C++ output\n' + '\n'.join(l[:400] for l in lh) + '\n')
+    # ---- RSN information element (a value with two lists of its own): every combination of 0..3 pairwise and 0..3 AKM suites through
+    # Dot11ManagementFrame::rsn_information, the element on the wire against IEEE 802.11 9.4.2.25 written out here, and back through the parser ----
+    CY = [0x01ac0f00, 0x02ac0f00, 0x04ac0f00, 0x05ac0f00]
+    AK = [0x01ac0f00, 0x02ac0f00]
+    rs = []
+    for npw in range(0, 4):
+        for nak in range(0, 4):
+            for rep in range(2 if quick else 10):
+                ver, grp, caps = rng.choice([1, 1, rng.randrange(65536)]), rng.choice(CY), rng.randrange(65536)
+                pw = [rng.choice(CY) for _ in range(npw)]; ak = [rng.choice(AK) for _ in range(nak)]
+                body = struct.pack('<HI', ver, grp) + struct.pack('<H', npw) + b''.join(struct.pack('<I', x) for x in pw) + \
+                    struct.pack('<H', nak) + b''.join(struct.pack('<I', x) for x in ak) + struct.pack('<H', caps)
+                cls = rng.choice(['Dot11Beacon', 'Dot11ProbeResponse', 'Dot11AssocRequest'])
+                lines = ['new ' + cls, 'rsn 0 %d %d %d %s %s' % (ver, grp, caps, ','.join(map(str, pw)) or '-', ','.join(map(str, ak)) or '-'), 'rsnget 0', 'ser']
+                want = 'R %d %d %d p%s a%s' % (ver, grp, caps, ('=' + ','.join(map(str, pw))) if pw else '', ('=' + ','.join(map(str, ak))) if ak else '')
+                rs.append(('n%d' % len(rs), lines, body, want, cls))
+    rh = C.run_harness('h_pkt', [(a_, b_) for a_, b_, _, _, _ in rs])
+    ctx.cov['evaluations'] += len(rs)
+    rs2 = []
+    for sid, lines, body, want, cls in rs:
+        lh = [l for l in rh.get(sid, []) if not l.startswith('!~')]
+        bad = None
+        elem = bytes([48, len(body)]) + body
+        if any(l.startswith('!!') for l in lh):
+            bad = 'RSN information: %s' % [l for l in lh if l.startswith('!!')][0]
+        elif len(lh) < 4 or not lh[3].startswith('S '):
+            bad = 'RSN information: set / serialize fails: %s' % [x[:60] for x in lh[1:]]
+        elif lh[2].strip() != want:
+            bad = 'RSN information: set %s, rsn_information() returns %s' % (want, lh[2].strip())
+        else:
+            y = bytes.fromhex(lh[3].split()[2][1:])
+            if not y.endswith(elem):
+                bad = 'RSN information %s is on the wire as ...%s, IEEE 802.11 9.4.2.25 says %s' % (want, y[-len(elem) - 2:].hex(), elem.hex())
+            else:
+                rs2.append(('w' + sid, ['parse %s x%s' % (cls, y.hex()), 'rsnget 0'], want))
+                nontriv.add(tuple(lines))
+        if bad:
+            kshort = re.sub(r'x[0-9a-f]+|\d+', 'N', bad)[:50]
+            if kshort not in seen:
+                seen.add(kshort)
+                ctx.violation(bad[:400], '=== replay\n' + '\n'.join(lines) + '\n--- ' + bad + '\n--- C++ output\n' + '\n'.join(l[:400] for l in lh) + '\n')
+    rh2 = C.run_harness('h_pkt', [(a_, b_) for a_, b_, _ in rs2])
+    ctx.cov['evaluations'] += len(rs2)
+    for sid, lines, want in rs2:
+        lh = [l for l in rh2.get(sid, []) if not l.startswith('!~')]
+        if len(lh) < 2 or lh[1].strip() != want:
+            bad = 'RSN information %s, written as specified, comes back from the wire as %s' % (want, [x[:80] for x in lh[1:]])
+            kshort = re.sub(r'x[0-9a-f]+|\d+', 'N', bad)[:50]
+            if kshort not in seen:
+                seen.add(kshort)
+                ctx.violation(bad[:400], '=== replay\n' + '\n'.join(lines) + '\n--- ' + bad + '\n--- C++ output\n' + '\n'.join(l[:400] for l in lh) + '\n')
     h = C.run_harness('h_pkt', scripts)
     ctx.cov['evaluations'] += len(scripts)
     import json
